@@ -31,6 +31,8 @@ type TEnv struct {
 	entryVars map[string]tvT   // entry values of parameters (old(p))
 	absIdx   map[*Expr]string  // index nodes translated as an absolute array position (quantifier change of variables)
 	patTerm  string            // instantiation pattern recorded by the primary occurrence
+	freshLo, freshHi string    // reference range reserved for the objects a callee allocates (call sites)
+	freshTerms []string
 }
 
 var mathInt = types.Typ[types.UntypedInt]
@@ -500,11 +502,16 @@ func findField(t types.Type, name string) (int, []int) {
 
 func (g *Gen) transIdx(e *Expr, env *TEnv) tvT {
 	x := g.trans(e.Args[0], env)
-	i := g.asIdx(g.trans(e.Args[1], env))
 	if x.gt == nil {
-		// raw array sort
-		return tvT{t: fmt.Sprintf("(select %s %s)", x.t, i), sort: "Int"}
+		// ghost map (Array Int X) indexed by a reference
+		k := g.trans(e.Args[1], env)
+		es := strings.TrimSuffix(strings.TrimPrefix(x.sort, "(Array Int "), ")")
+		if es == "Int" {
+			return tvT{t: fmt.Sprintf("(select %s %s)", x.t, k.t), gt: mathInt}
+		}
+		return tvT{t: fmt.Sprintf("(select %s %s)", x.t, k.t), sort: es}
 	}
+	i := g.asIdx(g.trans(e.Args[1], env))
 	switch u := x.gt.Underlying().(type) {
 	case *types.Slice:
 		c, _ := g.memComp(u.Elem())
@@ -547,6 +554,12 @@ func (g *Gen) resolveType(tx *TypeX, pkg *packages.Package) (types.Type, string)
 			return mathInt, "Int"
 		case "Ref":
 			return types.Typ[types.UnsafePointer], "Int"
+		case "IntMap":
+			// ghost map from references to mathematical integers (bit-vectors of 520 bits in bv mode)
+			if g.bv {
+				return nil, "(Array Int (_ BitVec 520))"
+			}
+			return nil, "(Array Int Int)"
 		case "bool", "Bool":
 			return types.Typ[types.Bool], "Bool"
 		case "string":
@@ -704,6 +717,10 @@ func (g *Gen) transBin(e *Expr, env *TEnv) tvT {
 	} else {
 		// mathematical integers: no wrap in specifications
 		switch op {
+		case "&", "|", "^":
+			g.needBitFns()
+			fn := map[string]string{"&": "bitand", "|": "bitor", "^": "bitxor"}[op]
+			return tvT{t: fmt.Sprintf("(%s %s %s)", fn, a.t, b.t), gt: mathInt}
 		case "+", "-", "*":
 			return tvT{t: fmt.Sprintf("(%s %s %s)", op, a.t, b.t), gt: mathInt}
 		case "/":
@@ -783,6 +800,21 @@ func (g *Gen) transCall(e *Expr, env *TEnv) tvT {
 			return tvT{t: fmt.Sprintf("(ite %s %s %s)", g.le(a.t, b.t, s), a.t, b.t), gt: t}
 		}
 		return tvT{t: fmt.Sprintf("(ite %s %s %s)", g.le(a.t, b.t, s), b.t, a.t), gt: t}
+	case "pow2":
+		if g.bv {
+			g.fail("pow2 in bv mode")
+		}
+		g.needPow2()
+		a := g.trans(args[0], env)
+		return tvT{t: fmt.Sprintf("(pow2 %s)", a.t), gt: mathInt}
+	case "fdiv":
+		// floor division of mathematical integers (divisor > 0)
+		a := g.trans(args[0], env)
+		b := g.trans(args[1], env)
+		if g.bv {
+			g.fail("fdiv in bv mode")
+		}
+		return tvT{t: fmt.Sprintf("(div %s %s)", a.t, b.t), gt: mathInt}
 	case "abs":
 		a := g.trans(args[0], env)
 		if g.bv {
@@ -807,6 +839,12 @@ func (g *Gen) transCall(e *Expr, env *TEnv) tvT {
 		r := x.t
 		if _, ok := x.gt.Underlying().(*types.Slice); ok {
 			r = fmt.Sprintf("(base %s)", x.t)
+		}
+		if env.freshLo != "" {
+			// assumed at a call site: the callee's new objects live in a range reserved for this call,
+			// hence differ from every object allocated before (by this function or by earlier calls)
+			env.freshTerms = append(env.freshTerms, r)
+			return boolTv(fmt.Sprintf("(and (>= %s %s) (< %s %s))", r, env.freshLo, r, env.freshHi))
 		}
 		return boolTv(fmt.Sprintf("(>= %s %s)", r, refBound))
 	case "typeof":
